@@ -71,6 +71,7 @@ type Config struct {
 	MapOrder     string            // base order of map iteration: sorted | reverse
 	NoSkipGuard  bool              // disable the skip-guard schedule reduction
 	SampleWitnesses int            // produce witnesses for up to this many completed paths (native validation of stubs)
+	RecordAsserts int              // keep the full SMT-LIB script of up to this many assertion queries (cross-solver diff)
 }
 
 type InputVal struct {
@@ -137,6 +138,13 @@ type Result struct {
 	Patterns    map[string]string         `json:"patterns,omitempty"` // regexp pattern -> RegLan
 	Langs       map[string][]LangPath     `json:"langs,omitempty"`
 	PathWitnesses []*Witness              `json:"path_witnesses,omitempty"`
+	AssertScripts []AssertScript          `json:"assert_scripts,omitempty"`
+}
+
+type AssertScript struct {
+	Label   string `json:"label"`
+	Verdict string `json:"verdict"`
+	Script  string `json:"script"`
 }
 
 type seenShard struct {
@@ -187,6 +195,7 @@ type pstate struct {
 	opaque  []string
 	ended   bool
 	syncMaps map[*value]*syncMapState
+	script  []string // declarations, definitions and assertions of this path (for RecordAsserts)
 }
 
 type inputRec struct {
@@ -578,6 +587,9 @@ func (st *pstate) name(t string, bits int) string {
 	n := fmt.Sprintf("n%d", st.nnames)
 	st.nnames++
 	st.sol.send(fmt.Sprintf("(define-fun %s () (_ BitVec %d) %s)", n, bits, t))
+	if st.ex.Cfg.RecordAsserts > 0 {
+		st.script = append(st.script, fmt.Sprintf("(define-fun %s () (_ BitVec %d) %s)", n, bits, t))
+	}
 	return n
 }
 
@@ -588,6 +600,9 @@ func (st *pstate) nameBool(t string) string {
 	n := fmt.Sprintf("n%d", st.nnames)
 	st.nnames++
 	st.sol.send(fmt.Sprintf("(define-fun %s () Bool %s)", n, t))
+	if st.ex.Cfg.RecordAsserts > 0 {
+		st.script = append(st.script, fmt.Sprintf("(define-fun %s () Bool %s)", n, t))
+	}
 	if st.defs == nil {
 		st.defs = map[string]string{}
 	}
@@ -601,6 +616,9 @@ func (st *pstate) assertPC(t string) {
 	}
 	st.sol.send("(assert " + t + ")")
 	st.pc = append(st.pc, t)
+	if st.ex.Cfg.RecordAsserts > 0 {
+		st.script = append(st.script, "(assert "+t+")")
+	}
 	h := sha256.New()
 	h.Write(st.pcHash[:])
 	h.Write([]byte(t))
@@ -716,6 +734,9 @@ func (st *pstate) freshVar(sort string) string {
 	n := fmt.Sprintf("v%d", st.nvars)
 	st.nvars++
 	st.sol.send("(declare-const " + n + " " + sort + ")")
+	if st.ex.Cfg.RecordAsserts > 0 {
+		st.script = append(st.script, "(declare-const "+n+" "+sort+")")
+	}
 	return n
 }
 
